@@ -33,6 +33,8 @@ def mailbox_programs(tier):
     add('stop_race', None, {'c1': [('call', A, 'a1'), ('stop', A), ('call', A, 'a2')], 'c2': [('send', A, 'b1')]})
     add('stop_race_bounded', 1, {'c1': [('send', A, 'a1'), ('stop', A), ('send', A, 'a2')], 'c2': [('call', A, 'b1')]})
     add('await_clone_after_termination', None, {'c1': [('stop', A), ('clone', A, 'a2'), ('await', 'a2'), ('clone', A, 'a3'), ('await', 'a3'), ('stopped', A)]})
+    add('ctx_stop_with_backlog', None, {'c1': [('send', A, 'ctxstop:1'), ('send', A, 'a2'), ('call', A, 'a3')]})
+    add('ctx_stop_with_backlog_bounded', 2, {'c1': [('send', A, 'ctxstop:1'), ('send', A, 'a2')], 'c2': [('call', A, 'b1')]}, tag='t')
     add('halt_and_await', None, {'c1': [('clone', A, 'a2'), ('send', A, 'a1'), ('halt', 'a2')], 'c2': [('await', A)]})
     add('backpressure_bounded2_burst', 2, {'c1': [('send', A, 'a1'), ('send', A, 'a2'), ('send', A, 'a3'), ('send', A, 'a4'), ('send', A, 'a5')]}, 1, K=2)
     add('force_pileup_bounded1', 1, {'c1': [('call', A, 'a1')], 'c2': [('call', A, 'b1')], 'c3': [('call', A, 'd1'), ('stop', A)]}, 1, K=3)
@@ -49,11 +51,13 @@ def mailbox_programs(tier):
     add('handles_sender_restart', None, {'c1': [('mk_sender', A, 's'), ('drop', A), ('sender_send', 's', 'ctxrestart:1'), ('sender_send', 's', 'a1')]})
     add('handles_last_drop_drains', 1, {'c1': [('send', A, 'a1'), ('send', A, 'a2'), ('downgrade', A, 'w'), ('drop', A), ('upgrade', 'w')]}, 1)
     add('handles_upgrade_revives', None, {'c1': [('downgrade', A, 'w'), ('clone', A, 'a2'), ('drop', A), ('upgrade', 'w', 'a3'), ('drop', 'a2'), ('call', 'a3', 'a1'), ('drop', 'a3'), ('upgrade', 'w')]})
+    add('handles_upgrade_after_self_stop', None, {'c1': [('downgrade', A, 'w'), ('mk_weak_sender', A, 'ws'), ('send', A, 'ctxstop:1'), ('ping', A), ('upgrade', 'w'), ('upgrade_sender', 'ws')]})
     add('handles_two_tasks', None, {'c1': [('mk_sender', A, 's'), ('drop', A), ('sender_send', 's', 'a1'), ('drop', 's')], 'c2': [('upgrade', 'w'), ('upgrade', 'w')]}, 0, 't', pre=(('downgrade', A, 'w'),))
     add('flags_unawaited', None, {'c1': [('running', A), ('stop', A), ('ping', A), ('stopped', A), ('running', A)]})
     add('flags_awaited', None, {'c1': [('clone', A, 'a2'), ('stop', A), ('await', 'a2'), ('stopped', A), ('downgrade', A, 'w'), ('weak_stopped', 'w')]})
     add('flags_during_stopped_hook', None, {'c1': [('stop', A)], 'c2': [('stopped', 'a2'), ('running', 'a2'), ('weak_stopped', 'w')]}, pre=(('clone', A, 'a2'), ('downgrade', A, 'w')), cb_pending={'stopped': 1}, K=3)
     add('flags_weak_after_last_drop', None, {'c1': [('send', A, 'a1'), ('send', A, 'a2'), ('downgrade', A, 'w'), ('drop', A), ('weak_stopped', 'w'), ('weak_stopped', 'w')]}, 1)
+    add('halt_after_failure', None, {'c1': [('clone', A, 'a2'), ('await', 'a2'), ('halt', A)]}, started={1: 'err'})
     add('flags_failed_start', None, {'c1': [('clone', A, 'a2'), ('await', 'a2'), ('stopped', A), ('running', A), ('downgrade', A, 'w'), ('weak_stopped', 'w'), ('call', A, 'a1')]}, started={1: 'err'})
     add('flags_killed', None, {'c1': [('ping', A), ('clone', A, 'a2'), ('await', 'a2'), ('stopped', A), ('running', A)]}, faults=1, K=2)
     # failure containment (C06 / C02): the actor task is cancelled at any step / a handler panics
@@ -67,6 +71,8 @@ def mailbox_programs(tier):
     add('timers_interval_with_bounded', 1, {'c1': [('send', A, 'a1'), ('stop', A)]}, 1, started_actions=(('interval_with', 'tw', 1),), max_clock=2, K=1, max_steps=20)
     add('timers_delayed_exec_kill', None, {'c1': [('ping', A)]}, started_actions=(('delayed_exec', 'de', 2), ('interval', 'tick', 1)), max_clock=3, K=1, faults=1, max_steps=20)
     add('timers_handler_panics', None, {'c1': [('call', A, 'panic:1')]}, started_actions=(('delayed_exec', 'de', 2), ('interval', 'tick', 1)), max_clock=3, K=1, max_steps=20)
+    add('timers_restart_delayed_send', None, {'c1': [('restart', A), ('ping', A)]}, started_actions=(('delayed_send', 'ds', 3),), max_clock=5, K=2, max_steps=20)
+    add('timers_delayed_exec_suspended', None, {'c1': [('ping', A), ('stop', A)]}, started_actions=(('delayed_exec', 'de', 1),), cb_pending={'userfut': 1}, max_clock=3, K=4, max_steps=24)
     add('timers_restart', None, {'c1': [('restart', A), ('ping', A)]}, started_actions=(('interval', 'tick', 2),), max_clock=4, K=2, max_steps=20)
     add('timers_restart_non_restartable', None, {'c1': [('restart', A), ('ping', A), ('stop', A)]}, started_actions=(('interval', 'tick', 2),), max_clock=4, K=2, max_steps=22, strategy='NonRestartable')
     add('timers_restart_recreate', None, {'c1': [('restart', A), ('ping', A), ('stop', A)]}, started_actions=(('interval', 'tick', 2),), max_clock=4, K=2, max_steps=22, strategy='RecreateFromDefault', tag='t')
@@ -85,6 +91,13 @@ def mailbox_programs(tier):
     add('timeout_fail_on_timeout', None, {'c1': [('call', A, 'a1'), ('call', A, 'a2'), ('stop', A)], 'c2': [('await', A)]}, 1, timeout=(1, True), max_clock=4, K=2, max_steps=30)
     add('timeout_slow_started', None, {'c1': [('call', A, 'a1'), ('stop', A)]}, 0, timeout=(1, False), cb_pending={'started': 1}, max_clock=3, K=2, max_steps=30)
     add('timeout_slow_stopped', None, {'c1': [('call', A, 'a1'), ('stop', A)], 'c2': [('await', A)]}, 0, timeout=(1, False), cb_pending={'stopped': 1}, max_clock=3, K=2, max_steps=30)
+    add('timeout_backlog', None, {'c1': [('send', A, 'a1'), ('send', A, 'a2'), ('send', A, 'a3'), ('call', A, 'a4')]}, 1, timeout=(1, False), max_clock=2, K=0, max_steps=40)
+    add('timeout_hanging_handler', None, {'c1': [('call', A, 'hang:1'), ('call', A, 'a2'), ('stop', A)]}, 0, timeout=(2, False), max_clock=4, K=1, max_steps=30)
+    # the same through the builder terminals: the configuration given to the builder must reach the loop
+    for ep in ('build_timeout_spawn', 'build_timeout_spawn_owning'):
+        h = 'addr' if not ep.endswith('owning') else 'a'
+        pre_ops = [('entry', ep)] + ([('to_addr', 'o', 'a')] if ep.endswith('owning') else [])
+        add('timeout_' + ep, None, {'c1': pre_ops + [('call', h, 'hang:1'), ('call', h, 'a2'), ('stop', h)]}, 0, entry=ep, timeout=(1, False), max_clock=3, K=1, max_steps=30)
     add('timeout_none_configured', None, {'c1': [('sleep', 2), ('call', A, 'a1')]}, 1, max_clock=4, K=1, max_steps=20, tag='t')
     # stream-attached actors (C13; also C03 lifecycle with finished): the stream is a queue fed by a producer task
     add('stream_items_then_end', None, {'prod': [('feed', 'i1'), ('feed', 'i2'), ('end_stream',)], 'c1': [('call', A, 'a1'), ('await', A)]}, stream=True, K=1, strategy='NonRestartable')
@@ -102,6 +115,7 @@ def mailbox_programs(tier):
     add('own_join_after_panic', None, {'c1': [('o_call', O, 'panic:1'), ('join', O)]}, owning=True)
     add('own_join_twice_failed_start', None, {'c1': [('join', O), ('join', O)]}, owning=True, started={1: 'err'})
     add('own_join_twice_after_panic', None, {'c1': [('o_call', O, 'panic:1'), ('join', O), ('join', O)]}, owning=True)
+    add('own_join_failed_restart', None, {'c1': [('o_call', O, 'a1'), ('to_addr', O, 'a'), ('restart', 'a'), ('call', 'a', 'a2'), ('join', O), ('join', O)]}, owning=True, started={2: 'err'})
     add('own_join_failed_start', None, {'c1': [('join', O)]}, owning=True, started={1: 'err'})
     add('own_consume', 1 if False else None, {'c1': [('o_send', O, 'a1'), ('consume', O)]}, owning=True)
     add('own_detach', None, {'c1': [('detach', O, 'a'), ('call', 'a', 'a1'), ('downgrade', 'a', 'w'), ('drop', 'a'), ('upgrade', 'w')]}, owning=True)
@@ -110,6 +124,7 @@ def mailbox_programs(tier):
     R, AC = 'register_child', 'add_child'
     add('children_broadcast_stop', None, {'c1': [('call', A, 'bcast:1'), ('stop', A)]}, children=(('c1', R, False), ('c2', AC, False)), K=2)
     add('children_parent_restarts', None, {'c1': [('call', A, 'bcast:1'), ('restart', A), ('call', A, 'bcast:2'), ('stop', A)]}, children=(('c1', R, False), ('c2', AC, False)), K=1)
+    add('children_broadcast_unit', None, {'c1': [('call', A, 'bcastu:1'), ('call', A, 'bcast:2'), ('stop', A)]}, children=(('c1', R, False), ('c2', AC, False)), K=1)
     add('children_two_under_m', None, {'c1': [('call', A, 'bcast:1'), ('call', A, 'bcast:2'), ('drop', A)]}, children=(('c1', R, False), ('c2', R, False)), K=1)
     add('children_sibling_stopped_first', None, {'c1': [('stop', 'c1'), ('ping', 'c1'), ('call', A, 'bcast:1'), ('stop', A)]}, children=(('c1', R, True), ('c2', R, False)), K=1)
     add('children_parent_killed', None, {'c1': [('call', A, 'bcast:1'), ('ping', A)]}, children=(('c1', R, False), ('c2', AC, False)), K=1, faults=1)
@@ -127,6 +142,7 @@ def mailbox_programs(tier):
     add('registry_sequential', None, {'c1': [('already_running',), ('from_registry', 'a'), ('already_running',), ('call', 'a', 'm1'), ('from_registry', 'b'), ('stop', 'a'), ('ping', 'b'), ('already_running',), ('from_registry', 'c'), ('try_from_registry',)]}, registry=True)
     add('registry_register', None, {'c1': [('spawn', 'x'), ('register', 'x', 'x2'), ('spawn', 'y'), ('register', 'y'), ('try_from_registry', 'r'), ('stop', 'r'), ('ping', 'r'), ('spawn', 'z'), ('register', 'z', 'z2'), ('already_running',), ('unregister', 'u'), ('already_running',), ('unregister',)]}, registry=True)
     add('registry_setup_after_death', None, {'c1': [('from_registry', 'a'), ('stop', 'a'), ('ping', 'a'), ('setup',), ('already_running',), ('try_from_registry',), ('from_registry', 'b'), ('call', 'b', 'm1')]}, registry=True)
+    add('registry_try_after_unawaited_stop', None, {'c1': [('from_registry', 'a'), ('stop', 'a'), ('ping', 'a'), ('try_from_registry',), ('already_running',)]}, registry=True)
     add('registry_replace', None, {'c1': [('from_registry', 'a'), ('spawn', 'x'), ('replace', 'x', 'old'), ('from_registry', 'b'), ('ping', 'old'), ('unregister',), ('try_from_registry',)]}, registry=True)
     add('registry_concurrent_lookup', None, {'c1': [('from_registry', 'a'), ('call', 'a', 'm1')], 'c2': [('from_registry', 'b'), ('call', 'b', 'm2')]}, registry=True)
     add('registry_concurrent_lookup_mt', None, {'c1': [('from_registry', 'a'), ('call', 'a', 'm1')], 'c2': [('from_registry', 'b'), ('call', 'b', 'm2')]}, registry=True, mt=True, K=3)
@@ -175,9 +191,12 @@ def evaluate(tr, status, cap, scripts, spec=None):
         out['C01'] += oracle_fifo(tr, scripts)
         out['C02'] += oracle_own_result(tr, scripts)
         out['C02'] += oracle_resolves(tr, status, scripts)
-        out['C04'] += oracle_stop_barrier(tr, scripts)
+        if not spec.get('timeout'):
+            out['C04'] += oracle_stop_barrier(tr, scripts)
         if spec['entry'].endswith('owning'):
             out['C17'] += oracle_owning(tr, status, scripts)
+        if spec.get('timeout'):
+            out['C11'] += oracle_timeouts(tr, spec.get('timeout'), status)
         return out
     if spec is not None and spec.get('registry'):
         reg = oracle_registry(tr, status, scripts)
@@ -217,7 +236,7 @@ def evaluate(tr, status, cap, scripts, spec=None):
         # "... or when the last strong handle is dropped ... even if the stream never ends"
         out['C13'] += [m for m in c05 if 'never terminated' in m]
     if spec is not None and (spec.get('timeout') or any(op[0] == 'sleep' for sc in scripts.values() for op in sc)):
-        out['C11'] += oracle_timeouts(tr, spec.get('timeout'))
+        out['C11'] += oracle_timeouts(tr, spec.get('timeout'), status)
     if spec is not None:
         if spec['started_actions']:
             tm = oracle_timers(tr, status, spec['started_actions'])
